@@ -366,7 +366,30 @@ def stream_poll(ex, st, fut, out_ty, dty):
     return alts
 
 
+def h_range_into_iter(ex, st, frame, t, nf, args, dty):
+    return [(args[0], None)]
+
+
+def h_range_next(ex, st, frame, t, nf, args, dty):
+    """<Range<uN> as Iterator>::next(&mut r): start < end ? Some(start++) : None"""
+    r = args[0]
+    rng = ex.read_path(st, r.cell, r.proj)
+    if not isinstance(rng, Obj):
+        raise Unsupported("Range::next on %r" % (rng,))
+    ga = generic_args(dty)
+    ity = ga[0] if ga else "usize"
+    start = ex._get_field(st, rng, None, 0, ity)
+    end = ex._get_field(st, rng, None, 1, ity)
+    has = z3.ULT(start.t, end.t)
+    nxt = copy.copy(rng)
+    nxt.fields = dict(rng.fields)
+    nxt.fields[(None, 0)] = Sym(start.t + 1, start.ty)
+    return [(("write_then", r, nxt, S.some(start, dty)), has), (S.none(dty), z3.Not(has))]
+
+
 ITER_SUMMARIES = [
+    (r"^<(std::ops::)?Range(<\w+>)? as (\S*::)?IntoIterator>::into_iter$", h_range_into_iter),
+    (r"^<(std::ops::)?Range(<\w+>)? as (\S*::)?Iterator>::next$", h_range_next),
     (r"^<.* as (\S*::)?StreamExt>::next$", h_stream_next),
     (r"^core::slice::(<impl[^>]*>::)?iter(_mut)?$", h_slice_iter),
     (r"^<.* as (\S*::)?IntoIterator>::into_iter$", h_into_iter),
